@@ -272,6 +272,14 @@ Mirrors ==
   \cup { <<"Seek", "seek", "req">>, <<"Seek", "rewind", "prov">>, <<"Seek", "stream_position", "prov">> }
   \cup { <<"Write", "write", "req">>, <<"Write", "flush", "req">>, <<"Write", "write_vectored", "prov">>, <<"Write", "write_all", "prov">> }
   \cup { <<"DelayNs", "delay_ns", "req">>, <<"DelayNs", "delay_us", "prov">>, <<"DelayNs", "delay_ms", "prov">> }
+  \cup { <<"tokio::AsyncBufRead", "poll_fill_buf", "req">>, <<"tokio::AsyncBufRead", "consume", "req">>, <<"tokio::AsyncRead", "poll_read", "req">>,
+         <<"tokio::AsyncSeek", "start_seek", "req">>, <<"tokio::AsyncSeek", "poll_complete", "req">>,
+         <<"tokio::AsyncWrite", "poll_write", "req">>, <<"tokio::AsyncWrite", "poll_flush", "req">>, <<"tokio::AsyncWrite", "poll_shutdown", "req">>,
+         <<"tokio::AsyncWrite", "poll_write_vectored", "prov">> }
+  \cup { <<"futures::AsyncBufRead", "poll_fill_buf", "req">>, <<"futures::AsyncBufRead", "consume", "req">>, <<"futures::AsyncRead", "poll_read", "req">>,
+         <<"futures::AsyncRead", "poll_read_vectored", "prov">>, <<"futures::AsyncSeek", "poll_seek", "req">>,
+         <<"futures::AsyncWrite", "poll_write", "req">>, <<"futures::AsyncWrite", "poll_flush", "req">>, <<"futures::AsyncWrite", "poll_close", "req">>,
+         <<"futures::AsyncWrite", "poll_write_vectored", "prov">> }
 \* the required methods a provided method's upstream body is built on
 Basis(t, m) ==
   CASE t = "Hasher"  -> {"write"}
@@ -280,5 +288,7 @@ Basis(t, m) ==
     [] t = "Seek"    -> {"seek"}
     [] t = "Write"   -> {"write"}
     [] t = "DelayNs" -> {"delay_ns"}
+    [] t \in {"tokio::AsyncWrite", "futures::AsyncWrite"} -> {"poll_write"}
+    [] t = "futures::AsyncRead" -> {"poll_read"}
     [] OTHER         -> {}
 =============================================================================
